@@ -16,6 +16,8 @@ import (
 	"go/ast"
 	"go/constant"
 	goparser "go/parser"
+	"io"
+	"log"
 	gotoken "go/token"
 	"go/types"
 	"os"
@@ -27,6 +29,7 @@ import (
 	"time"
 
 	"github.com/goplus/gogen"
+	"verifharness/compcx"
 	"verifharness/vh"
 	"verifharness/xrun"
 )
@@ -677,13 +680,13 @@ func runSets(sets []*oset, o *vh.Out, workdir string) {
 		perms[s.idx] = permutations(len(s.cands))
 	}
 	src := program(sets, perms)
-	out, err := xrun.CompileFile("main.xgo", src, false)
+	out, err := compcx.CompileFile("main.xgo", src)
 	if err != nil {
 		// attribute: compile every set alone
 		var good []*oset
 		for _, s := range sets {
 			one := program([]*oset{s}, perms)
-			if _, e := xrun.CompileFile("main.xgo", one, false); e != nil {
+			if _, e := compcx.CompileFile("main.xgo", one); e != nil {
 				o.Oracle("compile-error-"+styleNames[s.style], s.dispCase(perms[s.idx][0], s.calls[0]),
 					fmt.Sprintf("set %d cands=%s: %v", s.idx, candsCode(s.cands), firstLine(e.Error())))
 				o.Count("set_compile_error")
@@ -706,7 +709,7 @@ func runSets(sets []*oset, o *vh.Out, workdir string) {
 			return
 		}
 		src = program(sets, perms)
-		if out, err = xrun.CompileFile("main.xgo", src, false); err != nil {
+		if out, err = compcx.CompileFile("main.xgo", src); err != nil {
 			o.Oracle("compile-error-whole-program", "program", firstLine(err.Error()))
 			return
 		}
@@ -918,7 +921,7 @@ var errKinds = []struct{ msg, kind string }{
 var posRe = regexp.MustCompile(`main\.xgo:(\d+):\d+: `)
 
 func runBadDecl(bd badDecl, o *vh.Out) {
-	out, err := xrun.CompileFile("main.xgo", bd.src, false)
+	out, err := compcx.CompileFile("main.xgo", bd.src)
 	impl := ""
 	if err == nil {
 		g, perr := parseGo(out)
@@ -1004,7 +1007,7 @@ func runNoMatch(r *vh.Rand, o *vh.Out, n int) {
 			ps := map[int][][]int{0: {order}}
 			_ = k
 			src := program([]*oset{&s}, ps)
-			_, err := xrun.CompileFile("main.xgo", src, false)
+			_, err := compcx.CompileFile("main.xgo", src)
 			impl := fmt.Sprintf("D=%d R=none", b2i(s.dist))
 			cl := s.dispCase(order, args)
 			if err == nil {
@@ -1421,7 +1424,7 @@ func replayDisp(s *oset, o *vh.Out, workdir string) {
 	}
 	if !accept {
 		src := program([]*oset{s}, map[int][][]int{0: {order}})
-		_, err := xrun.CompileFile("main.xgo", src, false)
+		_, err := compcx.CompileFile("main.xgo", src)
 		impl := fmt.Sprintf("D=%d R=none", b2i(s.dist))
 		if err == nil {
 			impl = fmt.Sprintf("D=%d R=accepted", b2i(s.dist))
@@ -1446,6 +1449,13 @@ func main() {
 	o := vh.NewOut(f.Out)
 	defer o.Close()
 	selfCheck()
+	log.SetOutput(io.Discard) // gogen logs every panic message
+	t0 := time.Now()
+	phase := func(name string) {
+		if os.Getenv("VERIF_TIMING") != "" {
+			fmt.Fprintf(os.Stderr, "[c10 %6.1fs] %s\n", time.Since(t0).Seconds(), name)
+		}
+	}
 	workdir := f.Out
 	if f.Replay != "" {
 		replay(f.Replay, o, workdir)
@@ -1465,17 +1475,22 @@ func main() {
 		s := genSet(r.Fork(i), i, f.Tier)
 		sets = append(sets, &s)
 	}
+	phase("generated")
 	runSets(sets, o, workdir)
+	phase("sets compiled and run")
 	for i := 0; i < nbadRounds; i++ {
 		for _, bd := range genBadDecls(r.Fork(5000 + i)) {
 			runBadDecl(bd, o)
 		}
 	}
+	phase("bad decls")
 	runNoMatch(r.Fork(7000), o, nnomatch)
+	phase("no-match calls")
 	// Part C
 	for i := 0; i < f.N; i++ {
 		rr := r.Fork(100000 + i)
 		funcs, typs, gname, gval, dname := genDecCase(rr)
 		runDec(funcs, typs, gname, gval, dname, o)
 	}
+	phase("gogen direct")
 }
